@@ -1,6 +1,134 @@
-/- Driver/C11 — stub until the property's model driver is written. -/
+/-
+Driver/C11 — runs the concurrent model of MemoryCache (Model/MemConc over Spec/Interleave) on
+protocol lines. One line = one complete case:
+
+  run max=<n> pol=lru|fifo pre=<ops> t=<ops>|<ops>[|<ops>] s=<digits>
+
+<ops> = `-` or comma-separated: g<k> get, c<k> contains, r<k> remove, z clear,
+p<k>:<hex> put (long TTL), x<k>:<hex> put_with_ttl whose TTL is over at the next access.
+`pre` runs alone before the threads exist; `s` is the schedule (thread index per step; an entry
+naming a finished thread is skipped); when it ends early the lowest-numbered unfinished thread
+runs until all have finished.  Answer:
+
+  pre=<answers> r=<answers t0>|<answers t1>… tr=<sites>/<drain> n=<entry_count> b=<memory_usage> m=<contents>
+
+answers: v<hex> | none | t | f | ok;  <sites>: the schedule point each step ended at (Pc.site),
+`-` for a skipped entry; <drain>: thread digit + site per drain step;  counters as the 64-bit
+words the Rust reports;  contents sorted by key, `k:<hex>` or `k:x<size>` for an entry whose TTL
+has ended.
+-/
 import Driver.Common
-open Drv
+import Cascette.Model.MemConc
+open Cascette Drv
+open Cascette.Model
+open Cascette.Model.MemConc
+open Cascette.Spec.Interleave
+
+def kv (pre : String) (t : String) : Option String :=
+  if t.startsWith pre then some (t.drop pre.length).toString else none
+
+def parseOp (t : String) : Option Op :=
+  match t.toList with
+  | 'g' :: r => (String.ofList r).toNat?.map .get
+  | 'c' :: r => (String.ofList r).toNat?.map .contains
+  | 'r' :: r => (String.ofList r).toNat?.map .remove
+  | ['z'] => some .clear
+  | c :: r =>
+    if c = 'p' ∨ c = 'x' then
+      match (String.ofList r).splitOn ":" with
+      | [k, h] =>
+        match k.toNat?, parseHexNat h with
+        | some k, some v => some (.put k v (c = 'x'))
+        | _, _ => none
+      | _ => none
+    else none
+  | [] => none
+
+def parseOps (s : String) : Option (List Op) :=
+  if s == "-" then some [] else
+  (s.splitOn ",").foldr (fun t acc => match parseOp t, acc with
+    | some o, some l => some (o :: l)
+    | _, _ => none) (some [])
+
+def parseProgs (s : String) : Option (List (List Op)) :=
+  (s.splitOn "|").foldr (fun t acc => match parseOps t, acc with
+    | some o, some l => some (o :: l)
+    | _, _ => none) (some [])
+
+def parseSched (s : String) : Option (List Nat) :=
+  if s == "-" then some [] else
+  s.toList.foldr (fun c acc => match acc with
+    | some l => if '0' ≤ c ∧ c ≤ '9' then some ((c.toNat - '0'.toNat) :: l) else none
+    | none => none) (some [])
+
+def showOut : Out → String
+  | .val (some v) => "v" ++ hexOfNats v
+  | .val none => "none"
+  | .bool true => "t"
+  | .bool false => "f"
+  | .unit => "ok"
+
+def showResults (t : Thread) : String :=
+  if t.results.isEmpty then "-" else ",".intercalate (t.results.map (fun r => showOut r.2))
+
+def insKey (x : Nat × MemCache.Entry) : List (Nat × MemCache.Entry) → List (Nat × MemCache.Entry)
+  | [] => [x]
+  | y :: t => if x.1 < y.1 then x :: y :: t else y :: insKey x t
+
+def showStore (st : MemCache.Store) : String :=
+  let l := st.foldr insKey []
+  if l.isEmpty then "-" else
+  ",".intercalate (l.map (fun p => toString p.1 ++ ":" ++
+    (if p.2.short then "x" ++ toString p.2.size else hexOfNats p.2.val)))
+
+def siteAt (y : Sys MemCache.State Thread Ev) (i : Nat) : Char :=
+  match y.threads[i]? with
+  | some t => t.site
+  | none => '?'
+
+def handle (toks : List String) : String :=
+  match toks with
+  | ["run", mx, pol, pre, ts, sc] =>
+    match (kv "max=" mx).bind (·.toNat?), kv "pol=" pol, (kv "pre=" pre).bind parseOps,
+          (kv "t=" ts).bind parseProgs, (kv "s=" sc).bind parseSched with
+    | some mx, some pol, some pre, some progs, some sched =>
+      let policy : Option MemCache.Policy := match pol with
+        | "lru" => some .lru | "fifo" => some .fifo | _ => none
+      match policy with
+      | none => "bad-op"
+      | some policy =>
+      if mx = 0 ∨ progs.length > 9 then "bad-op" else
+      let cfg : MemCache.Config := { maxEntries := mx, maxBytes := none, policy := policy, defaultShort := false }
+      let m := machine cfg (detVic cfg)
+      -- the operations of `pre` run alone, to completion
+      let y0 := (drain m 100000 (sys MemCache.init [pre])).1
+      let preT := match y0.threads with | t :: _ => showResults t | [] => "-"
+      let y1 : Sys MemCache.State Thread Ev := sys y0.shared progs
+      let (y2, tr) := sched.foldl (fun (acc : Sys MemCache.State Thread Ev × List Char) i =>
+        match acc.1.threads[i]? with
+        | none => (acc.1, '-' :: acc.2)
+        | some t =>
+          if t.done then (acc.1, '-' :: acc.2) else
+          let y' := stepAt m acc.1 i
+          (y', siteAt y' i :: acc.2)) (y1, [])
+      -- complete the schedule: lowest-numbered unfinished thread first
+      let rec finish (fuel : Nat) (y : Sys MemCache.State Thread Ev) (acc : List Char) :
+          Sys MemCache.State Thread Ev × List Char :=
+        match fuel with
+        | 0 => (y, acc)
+        | f + 1 =>
+          match firstLive m y.threads 0 with
+          | none => (y, acc)
+          | some i =>
+            let y' := stepAt m y i
+            finish f y' (siteAt y' i :: Char.ofNat ('0'.toNat + i) :: acc)
+      let (y3, dr) := finish 100000 y2 []
+      "pre=" ++ preT ++ " r=" ++ "|".intercalate (y3.threads.map showResults) ++
+        " tr=" ++ String.ofList tr.reverse ++ "/" ++ String.ofList dr.reverse ++
+        " n=" ++ toString (wrap y3.shared.count) ++ " b=" ++ toString (wrap y3.shared.bytes) ++
+        " m=" ++ showStore y3.shared.store
+    | _, _, _, _, _ => "bad-op"
+  | _ => "bad-op"
 
 def main : IO Unit := do
-  loopPure (← IO.getStdin) (← IO.getStdout) (fun _ => "bad-op")
+  loopPure (← IO.getStdin) (← IO.getStdout) handle
